@@ -22,6 +22,11 @@
 (*                                                                         *)
 (* Fees, weights, virtual sizes and sigop costs of the universe are the    *)
 (* REAL ones, measured by the harness (IOEnv.BT_MEASURE).                  *)
+(* Amounts (coin values, fees, fee sums, the coinbase value) are WIDE:     *)
+(* [q, r] = q * 10^9 + r satoshi with 0 <= r < 10^9, so that single fees   *)
+(* above 2^32 satoshi and fee totals crossing 2^31 / 2^32 are summed and   *)
+(* compared exactly although TLC's integers are 32 bit (an overflow is an  *)
+(* error in TLC, never a silent wrap).                                     *)
 (* Outpoints: <<t, i>> with t >= 1: output i of TxU[t]; t = 0: base coin i.*)
 (***************************************************************************)
 EXTENDS Integers, Sequences, FiniteSets, TLC, VF, IOUtils
@@ -34,7 +39,7 @@ CONSTANTS TxU,        \* Seq of [ins : Seq([op, seq]), outs : Seq([v, cls]), ver
           MinRelay, IncrRelay, MaxReplClusters, MaxClusterCount,
           Reserves,   \* block_reserved_weight values used for the weight rows of the option grid
           GridChunks  \* boundaries are taken around the first GridChunks chunks and the last one
-Meas == ndJsonDeserialize(IOEnv.BT_MEASURE)      \* Meas[t] = [fee, vsize, weight, sigops]
+Meas == ndJsonDeserialize(IOEnv.BT_MEASURE)      \* Meas[t] = [fee : [q, r], vsize, weight, sigops]
 Maturity == 100
 MaxSigops == 80000            \* MAX_BLOCK_SIGOPS_COST
 MaxWeight == 4000000          \* MAX_BLOCK_WEIGHT
@@ -56,6 +61,32 @@ state == <<pool, delta, chain, utxo>>
 View0 == <<pool, delta, chain, ctr>>
 vars == <<state, ctr, lastAct, lastRes>>
 
+\* ------------------------------------------------------------------ wide amounts: [q, r] = q * 10^9 + r, 0 <= r < 10^9 (q may be negative)
+WB == 1000000000
+W(q, r) == [q |-> q, r |-> r]
+WOf(n) == [q |-> n \div WB, r |-> n % WB]                      \* |n| < 2^31
+WZero == W(0, 0)
+WAdd(a, b) == LET x == a.r + b.r IN [q |-> a.q + b.q + x \div WB, r |-> x % WB]
+WSub(a, b) == LET x == a.r - b.r IN [q |-> a.q - b.q + x \div WB, r |-> x % WB]
+WLt(a, b) == a.q < b.q \/ (a.q = b.q /\ a.r < b.r)
+WLe(a, b) == a.q < b.q \/ (a.q = b.q /\ a.r <= b.r)
+WGt(a, b) == WLt(b, a)
+WGe(a, b) == WLe(b, a)
+WOK(a) == a.r >= 0 /\ a.r < WB
+\* a * s for an integer 0 <= s < 2 000 000 (sizes and weights): the three base-1000 digits of r are multiplied separately
+WMul(a, s) ==
+  LET ok == Assert(s >= 0 /\ s < 2000000, "WMul: factor out of range")
+      x0 == (a.r % 1000) * s
+      x1 == ((a.r \div 1000) % 1000) * s
+      x2 == (a.r \div 1000000) * s
+  IN IF ok THEN WAdd(WAdd([q |-> a.q * s, r |-> 0], WOf(x0)),
+                     WAdd([q |-> x1 \div 1000000, r |-> (x1 % 1000000) * 1000], [q |-> x2 \div 1000, r |-> (x2 % 1000) * 1000000]))
+     ELSE WZero
+RECURSIVE WSumS(_)
+WSumS(s) == IF s = <<>> THEN WZero ELSE WAdd(Head(s), WSumS(Tail(s)))
+RECURSIVE WSumF(_, _)
+WSumF(f, S) == IF S = {} THEN WZero ELSE LET x == CHOOSE y \in S : TRUE IN WAdd(f[x], WSumF(f, S \ {x}))
+
 \* ------------------------------------------------------------------ transactions
 TxIds == 1..Len(TXU)
 NIn(t) == Len(TXU[t].ins)
@@ -74,14 +105,14 @@ SumS(s) == IF s = <<>> THEN 0 ELSE Head(s) + SumS(Tail(s))
 RECURSIVE SumF(_, _)
 SumF(f, S) == IF S = {} THEN 0 ELSE LET x == CHOOSE y \in S : TRUE IN f[x] + SumF(f, S \ {x})
 \* msig: n extra bare-CHECKMULTISIG outputs of v satoshi each (sigop carriers; never spent)
-OutVal(t) == SumS([i \in 1..Len(TXU[t].outs) |-> TXU[t].outs[i].v]) + TXU[t].msig.n * TXU[t].msig.v
+OutVal(t) == WAdd(WSumS([i \in 1..Len(TXU[t].outs) |-> TXU[t].outs[i].v]), WOf(TXU[t].msig.n * TXU[t].msig.v))
 Fee(t) == Meas[t].fee
 VSize(t) == Meas[t].vsize         \* sigop-adjusted virtual size (CTxMemPoolEntry::GetTxSize)
 Weight(t) == Meas[t].weight       \* GetTransactionWeight
 SigOps(t) == Meas[t].sigops       \* GetTransactionSigOpCost
 Max(a, b) == IF a > b THEN a ELSE b
 AdjW(t) == Max(Weight(t), SigOps(t) * BytesPerSigop)     \* GetSigOpsAdjustedWeight: the size the cluster mempool works with
-MFee(D, t) == Fee(t) + D[t]
+MFee(D, t) == WAdd(Fee(t), WOf(D[t]))
 ClsOf(o) == IF o[1] >= 1 /\ o[1] # 99 THEN TXU[o[1]].outs[o[2]].cls ELSE "key"
 FeeAt(rate, vsize) == (rate * vsize + 999) \div 1000
 ToSet(s) == {s[i] : i \in 1..Len(s)}
@@ -98,9 +129,8 @@ MTPat(C, j) ==
       cnt == Cardinality(hs)
       rank(h) == Cardinality({g \in hs : ts[g] < ts[h] \/ (ts[g] = ts[h] /\ g < h)})
   IN ts[CHOOSE h \in hs : rank(h) = cnt \div 2]
-\* GetBlockSubsidy in whole coins (heights below 2 * Halving)
-SubsidyBTC(h) == IF h < Halving THEN 50 ELSE IF h < 2 * Halving THEN 25 ELSE Assert(FALSE, "height beyond the modelled subsidy range")
-Coin8 == 100000000
+\* GetBlockSubsidy (heights below 2 * Halving): 50 BTC, then 25 BTC
+SubsidyW(h) == IF h < Halving THEN W(5, 0) ELSE IF h < 2 * Halving THEN W(2, 500000000) ELSE Assert(FALSE, "height beyond the modelled subsidy range")
 
 \* ------------------------------------------------------------------ coins
 Coin(v, h, cb) == [v |-> v, h |-> h, cb |-> cb]
@@ -138,7 +168,7 @@ ConnTxs(C, txs, V) ==
        IN IF ~(InsSet(t) \subseteq DOMAIN V) THEN fail("bad-txns-inputs-missingorspent")
           ELSE IF \E j \in 1..NIn(t) : V[InOp(t, j)].cb /\ h - V[InOp(t, j)].h < Maturity
                THEN fail("bad-txns-premature-spend-of-coinbase")
-          ELSE IF SumS([j \in 1..NIn(t) |-> V[InOp(t, j)].v]) < OutVal(t) THEN fail("bad-txns-in-belowout")
+          ELSE IF WLt(WSumS([j \in 1..NIn(t) |-> V[InOp(t, j)].v]), OutVal(t)) THEN fail("bad-txns-in-belowout")
           ELSE IF ~SeqOKNext(C, t, [j \in 1..NIn(t) |-> V[InOp(t, j)].h]) THEN fail("bad-txns-nonfinal")
           ELSE IF \E j \in 1..NIn(t) : ClsOf(InOp(t, j)) \in ConsensusInvalid THEN fail("script-failed")
           ELSE LET newc == [o \in OutsOf(t) |-> Coin(TXU[t].outs[o[2]].v, h, FALSE)]
@@ -167,49 +197,32 @@ Avail(P, U) == DOMAIN U \cup UNION {OutsOf(p) : p \in P}
 CoinH(P, U, C, o) == IF o \in DOMAIN U THEN U[o].h ELSE Height(C) + 1
 CoinV(P, U, o) == IF o \in DOMAIN U THEN U[o].v ELSE TXU[o[1]].outs[o[2]].v
 
-\* ------------------------------------------------------------------ exact feerate comparisons (TLC integers are 32 bit; an overflow is an error)
-D3(x) == <<x % 1000, (x \div 1000) % 1000, x \div 1000000>>
-MulD(a, b) == LET x == D3(a) y == D3(b)
-                  p0 == x[1]*y[1]
-                  p1 == x[1]*y[2] + x[2]*y[1]
-                  p2 == x[1]*y[3] + x[2]*y[2] + x[3]*y[1]
-                  p3 == x[2]*y[3] + x[3]*y[2]
-                  p4 == x[3]*y[3]
-                  c0 == p0 \div 1000  d0 == p0 % 1000
-                  q1 == p1 + c0  c1 == q1 \div 1000  d1 == q1 % 1000
-                  q2 == p2 + c1  c2 == q2 \div 1000  d2 == q2 % 1000
-                  q3 == p3 + c2  c3 == q3 \div 1000  d3 == q3 % 1000
-                  q4 == p4 + c3
-              IN <<q4, d3, d2, d1, d0>>
-RECURSIVE LexGE(_, _)
-LexGE(u, v) == IF u = <<>> THEN TRUE ELSE IF Head(u) > Head(v) THEN TRUE ELSE IF Head(u) < Head(v) THEN FALSE ELSE LexGE(Tail(u), Tail(v))
-Small(x) == x < 46000 /\ x > -46000
-ProdGE(a, b, c, d) == IF Small(a) /\ Small(b) /\ Small(c) /\ Small(d) THEN a * b >= c * d ELSE LexGE(MulD(a, b), MulD(c, d))
-ProdGT(a, b, c, d) == IF Small(a) /\ Small(b) /\ Small(c) /\ Small(d) THEN a * b > c * d
-                      ELSE LET m1 == MulD(a, b) m2 == MulD(c, d) IN m1 # m2 /\ LexGE(m1, m2)
+\* ------------------------------------------------------------------ exact feerate comparisons (wide fee * size products)
 \* chunk a has a strictly higher feerate than chunk b (f = modified fee, s = adjusted weight > 0)
-Higher(a, b) == ProdGT(a.f, b.s, b.f, a.s)
+Higher(a, b) == WGt(WMul(a.f, b.s), WMul(b.f, a.s))
 \* chunks of a linearization, with their members: a later chunk with a higher feerate merges into its predecessor
 RECURSIVE MergeBack(_)
 MergeBack(ch) == IF Len(ch) < 2 THEN ch
                  ELSE LET a == ch[Len(ch) - 1] b == ch[Len(ch)] IN
-                      IF Higher(b, a) THEN MergeBack(Append(SubSeq(ch, 1, Len(ch) - 2), [txs |-> a.txs \o b.txs, f |-> a.f + b.f, s |-> a.s + b.s])) ELSE ch
+                      IF Higher(b, a) THEN MergeBack(Append(SubSeq(ch, 1, Len(ch) - 2), [txs |-> a.txs \o b.txs, f |-> WAdd(a.f, b.f), s |-> a.s + b.s])) ELSE ch
 RECURSIVE Chunks(_, _)
 Chunks(D, L) == IF L = <<>> THEN <<>>
                 ELSE MergeBack(Append(Chunks(D, Front(L)), [txs |-> <<L[Len(L)]>>, f |-> MFee(D, L[Len(L)]), s |-> AdjW(L[Len(L)])]))
 RECURSIVE Cum(_)
-Cum(ch) == IF ch = <<>> THEN <<[f |-> 0, s |-> 0]>>
-           ELSE LET c == Cum(Front(ch)) l == c[Len(c)] x == ch[Len(ch)] IN Append(c, [f |-> l.f + x.f, s |-> l.s + x.s])
-Uncum(c) == [i \in 1..Len(c) - 1 |-> [f |-> c[i + 1].f - c[i].f, s |-> c[i + 1].s - c[i].s]]
+Cum(ch) == IF ch = <<>> THEN <<[f |-> WZero, s |-> 0]>>
+           ELSE LET c == Cum(Front(ch)) l == c[Len(c)] x == ch[Len(ch)] IN Append(c, [f |-> WAdd(l.f, x.f), s |-> l.s + x.s])
+Uncum(c) == [i \in 1..Len(c) - 1 |-> [f |-> WSub(c[i + 1].f, c[i].f), s |-> c[i + 1].s - c[i].s]]
 SizesOf(d) == {d[i].s : i \in 1..Len(d)}
 SegOf(d, z) == IF z >= d[Len(d)].s THEN [a |-> d[Len(d)], b |-> [f |-> d[Len(d)].f, s |-> d[Len(d)].s + 1]]
                ELSE LET i == CHOOSE k \in 1..Len(d) - 1 : d[k].s <= z /\ z < d[k + 1].s IN [a |-> d[i], b |-> d[i + 1]]
+PGE(a, b, c, d) == WGe(WMul(a, b), WMul(c, d))        \* a * b >= c * d (a, c wide; b, d sizes)
+PGT(a, b, c, d) == WGt(WMul(a, b), WMul(c, d))
 GEat(d1, d2, z) == LET s1 == SegOf(d1, z) s2 == SegOf(d2, z) IN
-                   IF z = s1.a.s THEN ProdGE(s1.a.f - s2.a.f, s2.b.s - s2.a.s, s2.b.f - s2.a.f, z - s2.a.s)
-                   ELSE ProdGE(s1.b.f - s1.a.f, z - s1.a.s, s2.a.f - s1.a.f, s1.b.s - s1.a.s)
+                   IF z = s1.a.s THEN PGE(WSub(s1.a.f, s2.a.f), s2.b.s - s2.a.s, WSub(s2.b.f, s2.a.f), z - s2.a.s)
+                   ELSE PGE(WSub(s1.b.f, s1.a.f), z - s1.a.s, WSub(s2.a.f, s1.a.f), s1.b.s - s1.a.s)
 GTat(d1, d2, z) == LET s1 == SegOf(d1, z) s2 == SegOf(d2, z) IN
-                   IF z = s1.a.s THEN ProdGT(s1.a.f - s2.a.f, s2.b.s - s2.a.s, s2.b.f - s2.a.f, z - s2.a.s)
-                   ELSE ProdGT(s1.b.f - s1.a.f, z - s1.a.s, s2.a.f - s1.a.f, s1.b.s - s1.a.s)
+                   IF z = s1.a.s THEN PGT(WSub(s1.a.f, s2.a.f), s2.b.s - s2.a.s, WSub(s2.b.f, s2.a.f), z - s2.a.s)
+                   ELSE PGT(WSub(s1.b.f, s1.a.f), z - s1.a.s, WSub(s2.a.f, s1.a.f), s1.b.s - s1.a.s)
 DiagGE(d1, d2) == \A z \in SizesOf(d1) \cup SizesOf(d2) : GEat(d1, d2, z)
 StrictlyBetter(dn, dol) == LET Z == SizesOf(dn) \cup SizesOf(dol) IN (\A z \in Z : GEat(dn, dol, z)) /\ (\E z \in Z : GTat(dn, dol, z))
 Fs(ch) == [i \in 1..Len(ch) |-> [f |-> ch[i].f, s |-> ch[i].s]]
@@ -250,20 +263,20 @@ Verdict(P, U, C, D, t) ==
   ELSE IF ~SeqOKNext(C, t, [j \in 1..NIn(t) |-> CoinH(P, U, C, InOp(t, j))]) THEN Rej("non-BIP68-final")
   ELSE IF \E j \in 1..NIn(t) : InOp(t, j) \in DOMAIN U /\ U[InOp(t, j)].cb /\ Height(C) + 1 - U[InOp(t, j)].h < Maturity
        THEN Rej("bad-txns-premature-spend-of-coinbase")
-  ELSE IF SumS([j \in 1..NIn(t) |-> CoinV(P, U, InOp(t, j))]) < OutVal(t) THEN Rej("bad-txns-in-belowout")
+  ELSE IF WLt(WSumS([j \in 1..NIn(t) |-> CoinV(P, U, InOp(t, j))]), OutVal(t)) THEN Rej("bad-txns-in-belowout")
   ELSE IF SigOps(t) > MaxSigops \div 5 THEN Rej("bad-txns-too-many-sigops")
-  ELSE IF MFee(D, t) < FeeAt(MinRelay, VSize(t)) THEN Rej("min relay fee not met")
+  ELSE IF WLt(MFee(D, t), WOf(FeeAt(MinRelay, VSize(t)))) THEN Rej("min relay fee not met")
   ELSE IF Direct(P, t) = {}
        THEN IF Cardinality(Cluster(P \cup {t}, {t})) > MaxClusterCount THEN Rej("too-large-cluster")
             ELSE IF ~ScriptsOK(t) THEN Rej("script-failed")
             ELSE Res(TRUE, "ok", {})
   ELSE LET direct == Direct(P, t)
            ev == DescOf(P, direct)
-           evfees == SumF([x \in TxIds |-> MFee(D, x)], ev)
+           evfees == WSumF([x \in TxIds |-> MFee(D, x)], ev)
            nc == Cardinality(ClustersOf(P, direct))
        IN IF nc > MaxReplClusters THEN Rej("too many potential replacements")
-          ELSE IF MFee(D, t) < evfees THEN Rej("insufficient fee")
-          ELSE IF MFee(D, t) - evfees < FeeAt(IncrRelay, VSize(t)) THEN Rej("insufficient fee")
+          ELSE IF WLt(MFee(D, t), evfees) THEN Rej("insufficient fee")
+          ELSE IF WLt(WSub(MFee(D, t), evfees), WOf(FeeAt(IncrRelay, VSize(t)))) THEN Rej("insufficient fee")
           ELSE IF Cardinality(Cluster((P \ ev) \cup {t}, {t})) > MaxClusterCount THEN Rej("too-large-cluster")
           ELSE IF ~ImprovesDiagramE(P, D, t, ev) THEN Rej("replacement-failed")
           ELSE IF AncOf(P, ParentsIn(P, t)) \cap direct # {} THEN Rej("bad-txns-spends-conflicting-tx")
@@ -282,16 +295,17 @@ RmBlock(P, D, txs) ==
        IN RmBlock(r.p, [r.d EXCEPT ![t] = 0], Tail(txs))
 
 \* ================================================================== block-creation options
-\* o = [maxw, resw, minf, mins, cbsig]: block_max_weight, block_reserved_weight, block_min_fee_rate = minf satoshi per mins
+\* o = [maxw, resw, minf, mins, cbsig]: block_max_weight, block_reserved_weight, block_min_fee_rate = minf (wide) satoshi per mins
 \* virtual bytes, coinbase_output_max_additional_sigops
-DefaultOpt == [maxw |-> MaxWeight, resw |-> 8000, minf |-> 1, mins |-> 1000, cbsig |-> 400]
+DefaultOpt == [maxw |-> MaxWeight, resw |-> 8000, minf |-> WOf(1), mins |-> 1000, cbsig |-> 400]
 \* CheckMiningOptions: anything else is refused (the constructor throws)
 OptOK(o) == /\ o.resw >= MinReserved /\ o.resw <= MaxWeight /\ o.maxw <= MaxWeight /\ o.resw <= o.maxw
             /\ o.cbsig <= MaxSigops
 
 \* ================================================================== the relation (one operator per clause of the property)
-\* T = [txs, fees, sigops, pkgs, cbq, cbr, height]: non-coinbase transactions in block order (universe ids, -1 = not of the universe),
-\* the template's per-transaction fee / sigop fields, its package feerates [f, s], coinbase value = cbq * 10^8 + cbr, block height
+\* T = [txs, fees, sigops, pkgs, cb, rw, height]: non-coinbase transactions in block order (universe ids, -1 = not of the universe),
+\* the template's per-transaction fee (wide) / sigop fields, its package feerates [f (wide), s], the value the coinbase pays and the
+\* block_reward_remaining field (both wide), the block height
 TLen(T) == Len(T.txs)
 Known(T) == \A i \in 1..TLen(T) : T.txs[i] \in TxIds
 \* every transaction of the template is in the pool, once
@@ -301,7 +315,7 @@ VInPool(P, T) == /\ Known(T) /\ \A i \in 1..TLen(T) : T.txs[i] \in P
 VTopo(P, T) == Known(T) => \A i \in 1..TLen(T) : \A p \in ParentsIn(P, T.txs[i]) : \E k \in 1..(i - 1) : T.txs[k] = p
 SumW(T) == SumS([i \in 1..TLen(T) |-> Weight(T.txs[i])])
 SumSig(T) == SumS([i \in 1..TLen(T) |-> SigOps(T.txs[i])])
-SumFee(T) == SumS([i \in 1..TLen(T) |-> Fee(T.txs[i])])
+SumFee(T) == WSumS([i \in 1..TLen(T) |-> Fee(T.txs[i])])
 \* within the configured weight, the reserved weight included; within the sigop-cost limit, the coinbase allowance included
 VWeight(o, T) == Known(T) => o.resw + SumW(T) <= o.maxw /\ o.resw + SumW(T) <= MaxWeight
 VSigops(o, T) == Known(T) => o.cbsig + SumSig(T) <= MaxSigops
@@ -311,18 +325,18 @@ VClaims(T) == Known(T) => /\ Len(T.fees) = TLen(T) /\ Len(T.sigops) = TLen(T)
 \* only transactions that are final at (height + 1, median time past of the tip); the template is for the next height
 VFinal(C, T) == Known(T) => (\A i \in 1..TLen(T) : FinalNext(C, T.txs[i])) /\ T.height = Height(C) + 1
 \* the coinbase pays exactly subsidy + fees (real fees, not modified ones)
-VCoinbase(C, T) == Known(T) => LET f == SumFee(T) IN T.cbq = SubsidyBTC(Height(C) + 1) + f \div Coin8 /\ T.cbr = f % Coin8
+VCoinbase(C, T) == Known(T) => LET want == WAdd(SubsidyW(Height(C) + 1), SumFee(T)) IN T.cb = want /\ T.rw = want
 \* the package feerates the template reports are those of consecutive groups of its transactions (modified fee, virtual size of the
 \* adjusted weight), and none is below the configured minimum feerate
 RECURSIVE SegOK(_, _, _, _)
 SegOK(D, T, i, k) ==
   IF k > Len(T.pkgs) THEN i = TLen(T) + 1
   ELSE \E j \in i..TLen(T) :
-         /\ SumS([x \in 1..(j - i + 1) |-> MFee(D, T.txs[i + x - 1])]) = T.pkgs[k].f
+         /\ WSumS([x \in 1..(j - i + 1) |-> MFee(D, T.txs[i + x - 1])]) = T.pkgs[k].f
          /\ (SumS([x \in 1..(j - i + 1) |-> AdjW(T.txs[i + x - 1])]) + 3) \div 4 = T.pkgs[k].s
          /\ SegOK(D, T, j + 1, k + 1)
 \* ByRatio: package < minimum  <=>  f * mins < minf * s
-BelowMin(o, f, s) == ProdGT(o.minf, s, f, o.mins)
+BelowMin(o, f, s) == WGt(WMul(o.minf, s), WMul(f, o.mins))
 VMinFee(D, o, T) == Known(T) => SegOK(D, T, 1, 1) /\ \A k \in 1..Len(T.pkgs) : ~BelowMin(o, T.pkgs[k].f, T.pkgs[k].s)
 \* the template, as a block on the tip, passes the consensus rules (UtxoChain)
 VConnect(C, U, T) == Known(T) => BlockOK(C, U, T.txs)
@@ -356,9 +370,9 @@ AsmLoop(C, Q, o, acc, tb) ==
                                    !.inc = Append(@, [f |-> c.f, vs |-> vs, w |-> cw, aw |-> c.s, sg |-> csg])], tb)
 Asm(Q, C, o, tb) == AsmLoop(C, Q, o, [w |-> o.resw, sg |-> o.cbsig, txs |-> <<>>, pkgs |-> <<>>, inc |-> <<>>, skips |-> {}], tb)
 \* the template the design produces, in the shape the relation takes
-TplOf(C, a) == LET f == SumS([i \in 1..Len(a.txs) |-> Fee(a.txs[i])]) IN
+TplOf(C, a) == LET cb == WAdd(SubsidyW(Height(C) + 1), WSumS([i \in 1..Len(a.txs) |-> Fee(a.txs[i])])) IN
                [txs |-> a.txs, fees |-> [i \in 1..Len(a.txs) |-> Fee(a.txs[i])], sigops |-> [i \in 1..Len(a.txs) |-> SigOps(a.txs[i])],
-                pkgs |-> a.pkgs, cbq |-> SubsidyBTC(Height(C) + 1) + f \div Coin8, cbr |-> f % Coin8, height |-> Height(C) + 1]
+                pkgs |-> a.pkgs, cb |-> cb, rw |-> cb, height |-> Height(C) + 1]
 
 \* ------------------------------------------------------------------ the option grid of a state: the default options, and options at / around
 \* the boundaries of the template the defaults give: maximum weight at -1 / 0 / +1 of "chunk k just fits", minimum feerate at -1 / 0 /
@@ -370,13 +384,13 @@ Grid(Q, C) ==
       wth(k) == SumS([j \in 1..(k - 1) |-> base[j].w]) + base[k].aw       \* chunk k fits iff resw + wth(k) < maxw
       sth(k) == SumS([j \in 1..k |-> base[j].sg])                          \* chunk k fits iff cbsig + sth(k) < MaxSigops
       wrows == {[DefaultOpt EXCEPT !.resw = r, !.maxw = r + wth(k) + d] : r \in RESERVES_, k \in K, d \in {-1, 0, 1}}
-      frows == {[DefaultOpt EXCEPT !.minf = base[k].f + d, !.mins = base[k].vs] : k \in {k \in K : base[k].f >= 1}, d \in {-1, 0, 1}}
+      frows == {[DefaultOpt EXCEPT !.minf = WAdd(base[k].f, WOf(d)), !.mins = base[k].vs] : k \in {k \in K : WGe(base[k].f, WOf(1))}, d \in {-1, 0, 1}}
       srows == {[DefaultOpt EXCEPT !.cbsig = MaxSigops - sth(k) + d] : k \in K, d \in {-1, 0, 1}}
       fixed == {DefaultOpt,
                 [DefaultOpt EXCEPT !.maxw = 8000],                          \* no room for any transaction
                 [DefaultOpt EXCEPT !.resw = MinReserved, !.maxw = MinReserved],
                 [DefaultOpt EXCEPT !.cbsig = MaxSigops], [DefaultOpt EXCEPT !.cbsig = 0],
-                [DefaultOpt EXCEPT !.minf = 0],                             \* free transactions welcome
+                [DefaultOpt EXCEPT !.minf = WZero],                         \* free transactions welcome
                 [DefaultOpt EXCEPT !.maxw = 7999],                          \* refused: reserved weight above the maximum
                 [DefaultOpt EXCEPT !.resw = MinReserved - 1],               \* refused: below the minimum reservation
                 [DefaultOpt EXCEPT !.maxw = MaxWeight + 1],                 \* refused: above the consensus maximum
